@@ -521,7 +521,278 @@ def c16(res, tier, seed, lib):
     res.check(rc == 2, "unknown-strategy-is-usage-error", "cli:random", "random -s nonsense", "rc=%s" % rc)
 
 
-RUNNERS = {"C13": c13, "C16": c16, "C17": c17, "C18": c18}
+# ------------------------------------------------------------------------------------------ C19
+
+FORMAT_TYPES = ["rgb", "rgb-float", "hex", "hsl", "hsl-hue", "hsl-saturation", "hsl-lightness", "hsv", "hsv-hue",
+                "hsv-saturation", "hsv-value", "lch", "lch-lightness", "lch-chroma", "lch-hue", "lab", "lab-a", "lab-b",
+                "oklab", "oklab-l", "oklab-a", "oklab-b", "luminance", "brightness", "ansi-8bit", "ansi-24bit", "cmyk", "name"]
+SET_PROPS = ["lightness", "hue", "chroma", "lab-a", "lab-b", "oklab-l", "oklab-a", "oklab-b", "red", "green", "blue",
+             "hsl-hue", "hsl-saturation", "hsl-lightness", "alpha"]
+
+
+def bad_color_text(rnd):
+    return rnd.choice(["nope", "#12345", "rgb(1,2)", "hsl(1,2,3)", "", " ", "12", "rgb(300", "gray(-1)", "redd", "#ggg", "1e", "ünï", "rgb(1,2,3) x"])
+
+
+def number_text(rnd, lo, hi):
+    k = rnd.randrange(10)
+    if k == 0:
+        return rnd.choice(["abc", "", "1e", "0x10", " 1", "1 ", "1,5", "--", "١"])
+    if k == 1:
+        return rnd.choice(["nan", "inf", "NaN", "Infinity", "1e400", "1e-400", "+0.5", ".5", "5.", "1e2", "00.10"])
+    if k == 2:
+        return str(rnd.randrange(0, 1000))
+    return "%.4f" % rnd.uniform(lo, hi)
+
+
+def stdin_script(rnd):
+    """(bytes for the real process, description for the model)"""
+    n = rnd.choice([0, 0, 1, 1, 2, 3, 5])
+    lines = []
+    for _ in range(n):
+        k = rnd.randrange(8)
+        if k == 0:
+            lines.append(("text", bad_color_text(rnd)))
+        elif k == 1:
+            lines.append(("bin", None))
+        elif k == 2:
+            lines.append(("text", "  " + rand_color_text(rnd) + " \t"))
+        else:
+            lines.append(("text", rand_color_text(rnd)))
+    data = b""
+    desc = []
+    for i, (kind, t) in enumerate(lines):
+        last = i == len(lines) - 1
+        if kind == "bin":
+            data += b"\xff\xfe\x80" + (b"" if (last and rnd.random() < 0.3) else b"\n")
+            desc.append("!")
+        else:
+            if "\n" in t:
+                t = t.replace("\n", " ")
+            data += t.encode() + (b"" if (last and rnd.random() < 0.3) else b"\n")
+            desc.append(hexs(t))
+    return data, desc
+
+
+def modelled_case(rnd):
+    sub = rnd.choice(["color", "lighten", "darken", "saturate", "desaturate", "rotate", "complement", "to-gray", "textcolor",
+                      "colorblind", "set", "format", "mix", "color", "format", "set"])
+    if sub in ("lighten", "darken", "saturate", "desaturate"):
+        cargs = [number_text(rnd, 0, 1)]
+    elif sub == "rotate":
+        cargs = [number_text(rnd, 0, 720)]
+    elif sub == "colorblind":
+        cargs = [rnd.choice(["prot", "deuter", "trit", "PROT", "Deuter"])]
+    elif sub == "set":
+        p = rnd.choice(SET_PROPS)
+        cargs = [rnd.choice([p, p.upper()]), number_text(rnd, 0, 255 if p in ("red", "green", "blue") else 1)]
+    elif sub == "format":
+        t = rnd.choice(FORMAT_TYPES)
+        cargs = [rnd.choice([t, t, t.upper()])]
+    elif sub == "mix":
+        base = rnd.choice([rand_color_text(rnd), rand_color_text(rnd), bad_color_text(rnd), "-"])
+        cargs = [base, number_text(rnd, 0, 1), rnd.choice(["Lab", "LCh", "RGB", "HSL", "OkLab", "lab", "rgb", "oklab"])]
+    else:
+        cargs = []
+    ncol = rnd.choice([0, 0, 1, 1, 2, 3, 6])
+    if sub == "mix" and ncol == 0:
+        ncol = 1
+    colors = []
+    for _ in range(ncol):
+        k = rnd.randrange(10)
+        colors.append(bad_color_text(rnd) if k == 0 else ("-" if k == 1 else rand_color_text(rnd)))
+    colors = [c for c in colors if c == "-" or not c.startswith("-")]
+    if sub == "mix" and not colors:
+        colors = ["red"]
+    # an empty colour argument is fine for clap (positional, explicit empty string)
+    data, desc = stdin_script(rnd)
+    if sub == "mix":
+        argv = ["mix", "-f", cargs[1], "-s", cargs[2], cargs[0]] + colors
+        if cargs[1].startswith("-") or cargs[0].startswith("-") and cargs[0] != "-":
+            argv = None
+    else:
+        argv = [sub] + cargs + colors
+        if any(a.startswith("-") and a != "-" for a in cargs):
+            argv = None
+    op = "cli %s %d %s %d %s %d %s" % (sub, len(cargs), " ".join(hexs(a) for a in cargs), len(colors),
+                                         " ".join(hexs(c) for c in colors), len(desc), " ".join(desc))
+    op = " ".join(op.split())
+    return argv, data, op
+
+
+def strip_sgr(b):
+    return re.sub(rb"\x1b\[[0-9;]*m", b"", b)
+
+
+def classify_stderr(err):
+    err = strip_sgr(err)
+    m = re.search(rb"\[pastel error\]: (.*)", err)
+    if not m:
+        return None, None
+    msg = m.group(1).decode("utf-8", "replace")
+    if msg.startswith("Could not parse color"):
+        return "color-parse", msg
+    if msg.startswith("Color input contains invalid UTF8"):
+        return "invalid-utf8", msg
+    if msg.startswith("Could not read color from standard input"):
+        return "no-stdin", msg
+    if msg.startswith("A color argument needs"):
+        return "color-arg-required", msg
+    if msg.startswith("Could not parse number"):
+        return "number", msg
+    if msg.startswith("Could not find any external color picker"):
+        return "no-picker", msg
+    return "other", msg
+
+
+def generic_oracle(res, argv, rc, out, err, allow_partial_line=False):
+    inp = repr(argv)[:600]
+    err = strip_sgr(err)
+    res.check(rc in (0, 1, 2), "exit-0-1-2", "cli", inp, "rc=%s stderr=%r" % (rc, err[-300:]))
+    res.check(b"panicked at" not in err and b"RUST_BACKTRACE" not in err, "no-panic", "cli", inp, repr(err[-400:]))
+    if rc == 1:
+        n = err.count(b"[pastel error]:")
+        res.check(n == 1, "one-pastel-error-message", "cli", inp, repr(err[-300:]))
+    if rc == 2:
+        res.check(b"error:" in err or b"USAGE" in err or b"Usage" in err, "usage-error-on-stderr", "cli", inp, repr(err[-200:]))
+    if not allow_partial_line:
+        res.check(out == b"" or out.endswith(b"\n"), "complete-lines", "cli", inp, repr(out[-80:]))
+
+
+def c19(res, tier, seed, lib):
+    rnd = random.Random(seed)
+    # ---- A. modelled family: exit status, stdout bytes, error class and message vs the Lean model ----
+    n = 6000 if tier == "thorough" else 700
+    ops, meta = [], []
+    for _ in range(n):
+        argv, data, op = modelled_case(rnd)
+        if argv is None:
+            continue
+        rc, out, err = run_cli(argv, stdin=data)
+        generic_oracle(res, argv, rc, out, err)
+        cls, msg = classify_stderr(err)
+        res.case(op, True)
+        res.tag("modelled:" + argv[0]); res.tag("modelled:rc=%s" % rc)
+        if cls:
+            res.tag("modelled:err=" + cls)
+        impl = "ok %d %s %s %s" % (rc, hexs(out), cls or "-", hexs(msg or ""))
+        ops.append(op); meta.append((op, argv, impl))
+    outs = model_batch(ops)
+    for (op, argv, impl), mo in zip(meta, outs):
+        res.model_op()
+        if mo != impl:
+            def show(x):
+                t = x.split(" ")
+                try:
+                    return "%s %s stdout=%r %s msg=%r" % (t[0], t[1], unhex(t[2])[:300], t[3], unhex(t[4])[:200])
+                except Exception:
+                    return x[:300]
+            res.disagree("%r  [%s]" % (argv, op[:300]), show(impl), show(mo))
+    # ---- prefix property (direct oracle, through the library): colours as args / stdin / '-' identical ----
+    for _ in range(60 if tier != "thorough" else 600):
+        texts = [rand_color_text(rnd) for _ in range(rnd.randrange(1, 5))]
+        rc1, out1, _ = run_cli(["color"] + texts)
+        rc2, out2, _ = run_cli(["color"], stdin="".join(t + "\n" for t in texts).encode())
+        rc3, out3, _ = run_cli(["color"] + ["-"] * len(texts), stdin="".join(t + "\n" for t in texts).encode())
+        res.case("same " + repr(texts))
+        res.check(rc1 == rc2 == rc3 == 0 and out1 == out2 == out3, "args-stdin-dash-identical", "cli:io", repr(texts), "%r %r %r" % (out1[:80], out2[:80], out3[:80]))
+        # a bad colour in the middle: complete lines for the ones before, error names it, exit 1
+        k = rnd.randrange(len(texts) + 1)
+        bad = bad_color_text(rnd).strip() or "nope"
+        mixed = texts[:k] + [bad] + texts[k:]
+        rc, out, err = run_cli(["lighten", "0.1"] + mixed)
+        good = run_cli(["lighten", "0.1"] + texts[:k])[1] if k else b""
+        res.check(rc == 1 and out == good and ("'%s'" % bad).encode() in err, "prefix-then-error-naming-text", "cli:execute", repr(mixed), "rc=%s out=%r err=%r" % (rc, out[:100], err[-120:]))
+    # ---- B. oracle-only families: every subcommand with defective arguments ----
+    subs = ["color", "list", "random", "distinct", "sort-by", "pick", "format", "paint", "gradient", "mix", "colorblind", "set",
+            "saturate", "desaturate", "lighten", "darken", "rotate", "complement", "gray", "to-gray", "textcolor", "colorcheck",
+            "nosuchcommand", "", "help"]
+    weird = ["", " ", "-", "--", "-x", "--nope", "-1", "-0.5", "1e999", "-1e999", "nan", "0", "1", "2", "99999999999999999999",
+             "red", "nope", "#ff", "pick", "\x00"[:0] + "a" * 5000, "ünï", "🎨", b"\xff\xfe", "--help", "-h", "-V", "-n", "-n0", "-n=3", "-s", "-s=rgb", "-f", "-m", "-m=off", "--color-mode=8bit",
+             "--force-color", "-o", "-b", "-i", "-u", "-r", "--metric", "CIE76", "--print-minimal-distance", "-v", "hue", "prot", "alpha"]
+    m = 5000 if tier == "thorough" else 500
+    for i in range(m):
+        sub = rnd.choice(subs)
+        k = rnd.choice([0, 1, 1, 2, 2, 3, 4])
+        argv = ([] if rnd.random() < 0.9 else [rnd.choice(["-f", "-m", "off", "-m", "--color-picker", "gpick"])]) + [sub] + [rnd.choice(weird) for _ in range(k)]
+        if sub == "distinct" and not any(a in ("-h", "--help", "-V") for a in argv):
+            # keep the optimiser short: only tiny counts reach it
+            argv = [a if not (isinstance(a, str) and a.isdigit() and int(a) > 3) else "3" for a in argv]
+        if sub == "random":
+            argv = [a if not (isinstance(a, str) and a.isdigit() and int(a) > 2000) else "7" for a in argv]
+        mode = rnd.randrange(5)
+        if mode == 0:
+            data = b""
+        elif mode == 1:
+            data = None            # /dev/null
+        elif mode == 2:
+            data = bytes(rnd.randrange(256) for _ in range(rnd.randrange(40)))
+        else:
+            data = stdin_script(rnd)[0]
+        try:
+            rc, out, err = run_cli(argv, stdin=data, timeout=60, tty=(rnd.random() < 0.15))
+        except subprocess.TimeoutExpired:
+            res.case("timeout " + repr(argv))
+            res.fail("terminates", "cli", repr(argv), "no exit within 60 s")
+            continue
+        res.case("weird " + repr(argv)[:200], True)
+        res.tag("weird:" + (sub or "(empty)")); res.tag("weird:rc=%s" % rc)
+        generic_oracle(res, argv, rc, out, err, allow_partial_line=True)
+    # ---- C. faults: reader closes stdout early; stdin closed; fake colour pickers ----
+    fault_cmds = [["list"], ["random", "-n", "500"], ["color", "red", "blue", "green"], ["gradient", "-n", "50", "red", "blue"],
+                  ["sort-by", "hue", "red", "blue", "green", "yellow"], ["format", "hex", "red", "blue"], ["colorcheck"],
+                  ["paint", "red", "x" * 200], ["distinct", "2"]]
+    for cmd in fault_cmds:
+        full = run_cli(cmd)[1]
+        for k in [0, 1, 5, 100]:
+            rc, got, err = run_cli(cmd, close_stdout_after=k, timeout=60)
+            res.case("closed-stdout %r after %d" % (cmd, k))
+            inp = "%r, reader closes after %d bytes" % (cmd, k)
+            res.check(rc in (0, 1, 2) and b"panicked" not in err, "stdout-closed-early-no-panic", "cli:error.rs", inp, "rc=%s err=%r" % (rc, err[-200:]))
+            if cmd[0] not in ("random", "distinct"):
+                res.check(full.startswith(got), "stdout-closed-early-prefix", "cli:error.rs", inp, repr(got[:60]))
+    # closed stdin (fd 0 not open at all)
+    for cmd in [["color"], ["color", "-"], ["paint", "red"], ["sort-by", "hue"], ["format", "hex"]]:
+        p = subprocess.Popen([BIN] + cmd, stdin=subprocess.DEVNULL, stdout=subprocess.PIPE, stderr=subprocess.PIPE, env=base_env(),
+                             preexec_fn=lambda: os.close(0))
+        out, err = p.communicate(timeout=30)
+        res.case("closed-stdin %r" % cmd)
+        generic_oracle(res, cmd + ["<stdin closed>"], p.returncode, out, err, allow_partial_line=True)
+    # fake pickers
+    import tempfile, stat, shutil
+    d = tempfile.mkdtemp(prefix="pv-picker-", dir=BUILD)
+    try:
+        def fake(body):
+            path = os.path.join(d, "gpick")
+            with open(path, "w") as fh:
+                fh.write("#!/bin/sh\nif [ \"$1\" = \"--version\" ]; then echo 'Gpick 0.2'; exit 0; fi\n" + body + "\n")
+            os.chmod(path, 0o755)
+        cases = [("absent", None, "no-picker"), ("exit-nonzero", "exit 3", "other"), ("garbage", "echo 'not a colour'", "color-parse"),
+                 ("non-utf8", "printf '\\377\\376'", "invalid-utf8"), ("valid", "echo '#ff8800'", None),
+                 ("empty", "true", "color-parse"), ("prints-pick", "echo pick", "color-parse")]
+        for (name, body, want) in cases:
+            env = {"PATH": d + ":/usr/bin:/bin"} if body is not None else {"PATH": "/nonexistent"}
+            if body is not None:
+                fake(body)
+            for cmd in [["color", "pick"], ["pick"], ["mix", "pick", "red"], ["paint", "pick", "x"]]:
+                try:
+                    rc, out, err = run_cli(cmd, env=env, timeout=10)
+                except subprocess.TimeoutExpired:
+                    res.case("picker %s %r" % (name, cmd))
+                    res.fail("terminates", "cli:colorpicker", "picker %s, %r" % (name, cmd), "no exit within 10 s")
+                    continue
+                res.case("picker %s %r" % (name, cmd))
+                generic_oracle(res, cmd + ["<picker:%s>" % name], rc, out, err, allow_partial_line=True)
+                cls, msg = classify_stderr(err)
+                if want is None:
+                    res.check(rc == 0, "picker-valid-works", "cli:colorpicker", "%s %r" % (name, cmd), "rc=%s %r" % (rc, err[-200:]))
+                else:
+                    res.check(rc == 1 and cls == want, "picker-failure-is-a-pastel-error", "cli:colorpicker", "%s %r" % (name, cmd), "rc=%s class=%s msg=%r" % (rc, cls, msg))
+    finally:
+        shutil.rmtree(d, ignore_errors=True)
+
+
+RUNNERS = {"C13": c13, "C16": c16, "C17": c17, "C18": c18, "C19": c19}
 
 
 def run(prop, tier, seed, lib):
